@@ -15,13 +15,12 @@ GenNext == /\ Next
                          THEN polled \cup {Delivered} ELSE polled
 GenSpec == GenInit /\ [][GenNext]_<<vars, hist, polled>>
 MsgsQ == {<<0>>, <<1, 0, 6>>, <<1, 2, 3, 4>>}
-MsgsT == {<<>>, <<1>>, <<0>>, <<0, 0>>, <<1, 0, 6>>, <<1, 2, 3, 4>>, <<1, 2, 3, 4, 6, 7>>, <<1, 2, 3, 4, 0, 7, 8, 9, 6>>}
+MsgsT == {<<>>, <<0, 0>>, <<1, 0, 6>>, <<1, 2, 3, 4>>, <<1, 2, 3, 4, 0, 7, 8, 9, 6>>}
 Sh(wc, wo, rc, ro, g) == [wcap |-> wc, woff |-> wo, rcap |-> rc, roff |-> ro, grow |-> g]
 ShapesQ == {Sh(0, 0, 0, 0, 8), Sh(8, 5, 8, 6, 2)}
-ShapesT == {Sh(0, 0, 0, 0, 8), Sh(8, 0, 8, 0, 8), Sh(8, 5, 8, 6, 8), Sh(8, 7, 8, 3, 1), Sh(16, 13, 16, 11, 1),
-            Sh(16, 9, 24, 21, 8), Sh(24, 17, 16, 15, 2)}
+ShapesT == {Sh(0, 0, 0, 0, 8), Sh(8, 5, 8, 6, 2), Sh(16, 13, 16, 11, 1)}
 KsQ == {1, 1000000}
-KsT == {1, 2, 3, 5, 1000000}
+KsT == {1, 2, 1000000}
 Skel == <<shape, cur, sent, wdone, wire, rpend, rcvd, polled>>
 Emit == PrintT(<<"BEHAV", ToJson(hist')>>)
 =============================================================================
